@@ -830,6 +830,13 @@ func (vc *VC) evalCall(env *Env, t CCall) Term {
 		n := *env
 		n.cur = env.fr.labels[id.Name]
 		return vc.evalTerm(&n, t.Args[1])
+	case "fmtv":
+		// fmtv(s): the text fmt's %v prints for slice s (uninterpreted function of its elements)
+		x := vc.evalTerm(env, t.Args[0])
+		if x.Sort != SSlice || x.T == nil {
+			vc.unsup("fmtv(): slice expected")
+		}
+		return Term{S: vc.fmtvTerm(env.cur, x), Sort: SStr, T: types.Typ[types.String]}
 	case "reached":
 		// reached(L): the execution passed the program point labelled L (in this iteration of the enclosing loop)
 		id, ok := t.Args[0].(CIdent)
